@@ -62,3 +62,58 @@ def t_paused(world):
 def tasks(tier):
     from specs.flows import flow_task, FLOWS
     return [('bank_state', t_bank_state), ('paused', t_paused)] + [(f'flow:{n}', flow_task(n, ('C14',))) for n in FLOWS if FLOWS[n]['kinds']]
+
+
+# ---------------------------------------------------------------- C14.d: every financial instruction carries the pause constraint
+from specs.accounts import all_try_accounts, ok_condition
+MUST_NOT_BE_PAUSED = ['LendingAccountDeposit', 'LendingAccountWithdraw', 'LendingAccountBorrow', 'LendingAccountRepay', 'LendingAccountLiquidate', 'LendingPoolHandleBankruptcy',
+                      'LendingPoolCollectBankFees', 'LendingPoolWithdrawFees', 'LendingPoolWithdrawInsurance', 'LendingPoolWithdrawFeesPermissionless', 'LendingPoolUpdateFeesDestinationAccount',
+                      'LendingAccountWithdrawEmissions', 'LendingAccountWithdrawEmissionsPermissionless', 'TransferToNewAccount', 'TransferToNewAccountPda',
+                      'KaminoDeposit', 'KaminoWithdraw', 'DriftDeposit', 'DriftWithdraw', 'SolendDeposit', 'SolendWithdraw']
+# position-touching instructions that legitimately lack the constraint (their fund-moving inner instructions carry it, or they only discard dust)
+EXEMPT = {'LendingAccountCloseBalance': 'closes a dust-only position, moves no funds', 'LendingAccountSettleEmissions': 'bookkeeping only',
+          'LendingAccountPurgeDelevBalance': 'risk-admin purge after completed deleverage', 'StartLiquidation': 'bracket marker; inner withdraw/repay carry the constraint',
+          'EndLiquidation': 'bracket end must always be able to run', 'StartDeleverage': 'bracket marker', 'EndDeleverage': 'bracket end',
+          'LendingAccountStartFlashloan': 'bracket marker; inner instructions carry it', 'LendingAccountEndFlashloan': 'bracket end'}
+
+
+def mk_pause_task(sn):
+    def task(world):
+        T = all_try_accounts(world)
+        ob = Ob('C14.d.' + sn, f'{sn}: accepted => the group is not paused (flag clear, or pause expired by the clock alone)', [T[sn].name] if sn in T else [],
+                'Anchor constraint code, every accepting path; is_protocol_paused inlined from its MIR')
+        if sn not in T: ob.fail('instruction struct missing'); return [ob]
+        c = ok_condition(world, sn, T[sn]); ob.paths = c['total_paths']
+        g = 'group' if any(f == 'group' for f, _ in c['fields']) else 'marginfi_group'
+        flags = z3.Int(f'{g}.data.panic_state_cache.pause_flags'); start = z3.Int(f'{g}.data.panic_state_cache.pause_start_timestamp'); now = z3.Int('clock.unix_timestamp')
+        paused = z3.And(flags % 2 == 1, z3.Or(now < start, now - start < 1800))
+        s = z3.Solver(); s.add(c['phi']); ob.queries += 1
+        if s.check() == z3.sat: ob.witness_sat += 1
+        ob.prove(None, None, [c['phi']], z3.Not(paused), 'accepted => not paused', role='pause-constraint')
+        # and it is accepted again as soon as the pause has expired, whatever last_cache_update says
+        s.add(flags % 2 == 1, now >= start, now - start >= 1800); ob.queries += 1
+        if s.check() == z3.sat: ob.witness_sat += 1
+        else: ob.fail('no accepting path once the pause has expired (cache staleness must not block users)')
+        ob.need_witness()
+        return [ob]
+    return task
+
+
+def t_pause_table(world):
+    """closed world: an instruction that loads a MarginfiAccount mutably must be classified"""
+    T = all_try_accounts(world)
+    ob = Ob('C14.d.table', 'every position/fund-touching instruction is classified (must carry the pause constraint, or listed exempt with a reason)', [], 'all #[derive(Accounts)] structs of the program')
+    fin = re.compile(r'^(LendingAccount|Kamino(Deposit|Withdraw)|Drift(Deposit|Withdraw)|Solend(Deposit|Withdraw)|TransferToNewAccount|LendingPool(HandleBankruptcy|CollectBankFees|Withdraw))')
+    for sn in T:
+        ob.queries += 1
+        if fin.search(sn) and sn not in MUST_NOT_BE_PAUSED and sn not in EXEMPT:
+            ob.fail(f'unclassified financial instruction {sn}')
+        else: ob.unsat += 1
+    ob.witness_sat = 1
+    return [ob]
+
+
+_t1 = tasks
+def tasks(tier):
+    return _t1(tier) + [('pause:' + sn, mk_pause_task(sn)) for sn in MUST_NOT_BE_PAUSED] + [('pause_table', t_pause_table)]
+WORLD = ('marginfi', 'typecrate', 'drift', 'kamino', 'solend')
